@@ -379,6 +379,11 @@ class World(EventDispatcher):
                     if not hasattr(removed, '__events__'):
                         return removed
 
+                    # The component is detached: unsubscribe it before
+                    # its callback, which may attach it again elsewhere
+                    # (or raise)
+                    self.remove_handler(removed)
+
                     # Code replication
                     # If dispatching is enabled, call on_remove directly
                     # to gain performance. Otherwise an event is dispatched
@@ -394,7 +399,6 @@ class World(EventDispatcher):
                                       ON_REMOVE_EVENT_NAME,
                                       removed, entity, self)
 
-                    self.remove_handler(removed)
                     return removed
 
             fringe += type.__subclasses__(subtype)
@@ -478,6 +482,9 @@ class World(EventDispatcher):
                 if not hasattr(removed, '__events__'):
                     return removed
 
+                # Unsubscribe before the callback, see remove_component
+                self.remove_handler(removed)
+
                 # If dispatching is enabled, call on_remove directly to gain
                 # performance. Otherwise an event is dispatched
                 if (ON_REMOVE_EVENT_NAME in removed.__events__
@@ -490,7 +497,6 @@ class World(EventDispatcher):
                     self.dispatch(ON_SINGLE_DISPATCH_EVENT_NAME,
                                   ON_REMOVE_EVENT_NAME, removed)
 
-                self.remove_handler(removed)
                 return removed
 
             fringe += type.__subclasses__(subtype)
